@@ -327,7 +327,11 @@ func solveAll(obls []*Obligation, cfg *runConfig) []*OblResult {
 			defer wg.Done()
 			defer func() { <-sem }()
 			text := o.smtText(nil)
-			r := solve(text, cfg.timeout, false, cfg.allSolve && !o.Cover, o.Name)
+			to := cfg.timeout
+			if o.Cover && to > 5 {
+				to = 5
+			}
+			r := solve(text, to, false, cfg.allSolve && !o.Cover, o.Name)
 			res[i] = &OblResult{O: o, R: r, SMT: len(text)}
 		}()
 	}
@@ -367,6 +371,7 @@ func cmdCheck(args []string) {
 
 func runCheck(cfg *runConfig) int {
 	t0 := time.Now()
+	os.RemoveAll(filepath.Join(verifDir(), "replays", cfg.prop))
 	cs, pkgDirs, err := loadContracts()
 	if err != nil {
 		fmt.Fprintln(os.Stderr, "contract error:", err)
